@@ -266,6 +266,13 @@ func runJobs(meta propMeta, tier string, only string) []*jobResult {
 			}
 			job.Args = na
 		}
+		if cap := os.Getenv("VERIF_BUDGET_CAP"); cap != "" {
+			// smoke tests of the thorough tier: every internal deadline shortened (the run then reports exhaustive:false)
+			var n int
+			if fmt.Sscan(cap, &n); n > 0 && job.BudgetS > n {
+				job.BudgetS = n
+			}
+		}
 		if job.Shards < 1 {
 			job.Shards = 1
 		}
